@@ -7,7 +7,7 @@ from ..rulelib import seed_sites, slicer_of, short
 RULES = {
     "ENT": "no call in the library draws from an ambient source (ThreadRng/OsRng/rand::rng/random, from_os_rng/from_entropy, getrandom, "
            "RandomState::new/default, SystemTime/Instant::now, process::id, thread::current, env::var(s)/args, thread-local "
-           "access), exposes a pointer as an integer, or iterates a RandomState-keyed map holding library state — outside an "
+           "access, the size of the rayon pool / the machine's parallelism), exposes a pointer as an integer, or iterates a RandomState-keyed map holding library state — outside an "
            "explicit table of named opt-in functions. Creating a ThreadRng handle is not a draw.",
     "ENT-fields": "no struct field has a type mentioning RandomState or ThreadRng outside a tabled list; every hasher field is "
                   "BuildHasherDefault<_>",
@@ -23,6 +23,10 @@ DRAW_PATTERNS = [
     (r"std::thread::current\b|ThreadId", "thread identity"), (r"std::env::(var|vars|var_os|vars_os|args|args_os)\b", "environment"),
     (r"thread::local::LocalKey|thread::LocalKey", "thread-local state"), (r"Argument::<'_>::new_pointer|fmt::Pointer", "pointer formatting"),
     (r"std::ptr::.*addr\b|::expose_provenance|::addr\(\)", "pointer address"),
+    # the size of the thread pool the caller happens to run in, or of the machine: not a parameter of the sketcher
+    (r"rayon(_core)?::(current_num_threads|current_thread_index|max_num_threads)\b|ThreadPool::current_num_threads|ThreadPool::current_thread_index",
+     "thread-pool geometry"),
+    (r"std::thread::available_parallelism\b|num_cpus::get", "machine parallelism"),
 ]
 HANDLE_OK = [r"^<rand::(rngs::)?(thread::|prelude::)?ThreadRng as (std|core)::default::Default>::default$",
              r"^<rand::(rngs::)?(thread::|prelude::)?ThreadRng as (std|core)::clone::Clone>::clone$", r"^rand::rng$", r"^rand::rngs::thread::rng$",
@@ -230,6 +234,14 @@ def run(ctx, facts):
     if not sub.violations:
         ctx.ok("ORDER", ", ".join(short_(f) for f in hm), "%d exit / pruning instances of the HashMap entry points are legitimate" % n_, "")
     ctx.floor("C12 HashMap entry points", len(hm), 2)
+    # entry points: the batch entry point of a sketcher is the per-item entry point applied to each element (plus the tabled
+    # finisher): the same items give the same sketch whichever of the two fed them
+    from . import C04
+    ctx.rule("DELEG", C04.RULES["DELEG"] + " — C12: a sketch is a function of the items, not of the entry point that fed them")
+    for fid_, fin_ in ((C04.SMH + "sketch_slice", None), (C04.SMH2 + "sketch_slice", None), (C04.SS + "sketch_slice", None),
+                       (C04.OD + "sketch_slice", "densify"), (C04.RD + "sketch_slice", "densify")):
+        if facts.has(fid_):
+            C04.deleg_slice(ctx, facts, fid_, finisher=fin_)
     # histories: an instance brought back by reinit()/reset() is a constructed instance
     ctx.rule("REINIT", "reinit/reset re-establishes every live mutated field with the constructor's value (RESET analysis of C13): an "
                        "instance reused after it produces what a new instance produces")
